@@ -43,7 +43,8 @@ ASSUMPTIONS = [
     "ordinates of exact landscapes are floats (str * int would repeat the string instead of raising)",
     "grid landscapes have a float `values` array of shape (depths, num_steps); the constructor's string placeholder "
     "array(['empty']) (printed as 'Bad choice of grid') is outside the model and is not generated",
-    "lc_approx on an empty product list returns the numpy scalar 0 rather than a landscape; the model calls that notLandscape",
+    "lc_approx on an empty product list returns the numpy scalar 0 rather than a landscape; the model calls that notLandscape "
+    "(an empty landscape list together with non-numeric coefficients is numpy dtype resolution on empty arrays and is not generated)",
     "np.interp / np.linspace behave as the model's interp/linspace in exact arithmetic (compared on every snap)",
     "sharing of depth lists between a result of exact +/- and an operand (union_crit_pairs appends the operand's own "
     "list) is counted, not failed: no operation of the property mutates critical_pairs in place",
@@ -51,7 +52,10 @@ ASSUMPTIONS = [
 TOL = 1e-9
 E_FILES = ["persim/landscapes/auxiliary.py", "persim/landscapes/exact.py", "persim/landscapes/approximate.py",
            "persim/landscapes/tools.py", "persim/landscapes/base.py"]
-ANCHOR_DIGEST = None   # filled in after the first run on the reference tree (see _digest)
+# structural digest of the anchored functions on the reference tree (/repo at 9ea345a); a different digest is not a
+# violation, it only raises the quick budget for that run (DESIGN 3.2)
+ANCHOR_DIGEST = {'auxiliary': 'bc3772c38ec6fa78', 'exact': '99f0632332413c05', 'approximate': '0f8fb68d7e3281ea',
+                 'tools': 'b70bef56f7bb2a6b', 'base': '745f7ac02fc4f30e'}
 
 
 # --------------------------------------------------------------------------- the real code
@@ -615,6 +619,8 @@ def gen_grid_history(ctx):
                 mc = m if u < 0.8 else r.choice([0, 1, m + 1, 2])
                 cs = [gen_scalar(ctx, exact, bad_p=0.03) for _ in range(mc)]
                 cs = [{"nonnum": "str"} if c == {"nonnum": "list"} else c for c in cs]   # a list would change the array's shape
+                if not idxs:        # no landscape at all: what numpy does with a str/None coefficient array is dtype
+                    cs = [1.5 if isinstance(c, dict) else c for c in cs]   # resolution on empty arrays, not modelled
                 ops.append(["lc", idxs, cs, s, t, n]); nreg += 1
     return {"cls": "grid", "mode": mode, "exact": exact, "leaves": leaves, "ops": ops}
 
@@ -1254,9 +1260,9 @@ CORPUS = [
 def run(ctx):
     r = ctx.rng
     ctx.extra["anchored_digest"] = _digest()
-    n = ctx.n(700, 9000)
+    n = ctx.n(700, 14000)
     if ANCHOR_DIGEST is not None and ctx.extra["anchored_digest"] != ANCHOR_DIGEST and not ctx.thorough:
-        n = 2500            # the anchored functions were rewritten: explore harder (DESIGN 3.2)
+        n = 1500            # the anchored functions were rewritten: explore harder (DESIGN 3.2)
         ctx.count("digest_changed")
     hists = list(CORPUS)
     for _ in range(n):
@@ -1359,17 +1365,26 @@ def replay(ctx, rep):
 
 
 MANIFEST = {
-    "text": "Proof: Lean theorems about the model of the landscape operators over any linear ordered field — the merged-slope "
-            "sum of two depth functions evaluates to the pointwise sum at every real t and stays well-formed (hinge representation), "
-            "negation/scalar multiple/quotient/difference likewise, a depth missing in one operand counts as zero, and by structural "
-            "induction every expression tree over shared operands evaluates to the pointwise expression (exact and grid landscapes); "
-            "padded grid sums/differences/scalar operations are samplewise, each of the four degree/grid mismatches is rejected in the "
-            "code's order, lc_approx equals the same combination of the re-sampled values and average_approx is lc with 1/n. The model is "
-            "tied to the code on every run by replaying generated operation histories of the real operators at Rat from the leaves "
-            "(breakpoint lists exactly, ordinates exactly on dyadic histories, 1e-9 otherwise; error kinds exactly).",
+    "text": "Proof: 34 Lean theorems about the model of the landscape operators over any linear ordered field. For depth lists in the "
+            "class the constructors produce (non-empty, zero end ordinates, non-decreasing abscissae where a zero-width step repeats "
+            "the same point - so zero-length bars are included) the merged-slope sum evaluates to the pointwise sum at every real t "
+            "and stays in the class (hinge representation: sum_slopes is additive for every pair of slope lists, evalPL of a "
+            "well-formed list equals the hinge sum of its slopes); negation, scalar multiple, quotient by c != 0 and difference "
+            "likewise; a depth missing in one operand counts as zero; by structural induction every expression tree over shared "
+            "operands (exact and grid landscapes) succeeds and evaluates to the pointwise expression at every depth. Grid side: padded "
+            "sum/difference/scalar operations are samplewise with missing rows = 0; each degree/start/stop/num_steps mismatch, a zero "
+            "divisor and a non-number are rejected with the code's error in the code's order; snap_pl is np.interp of every depth at "
+            "the common nodes and np.interp is the linear interpolant with constant extension; lc_approx equals the same combination "
+            "of the re-sampled values; average_approx is lc with 1/n, i.e. the mean. The model is tied to the code on every run by "
+            "replaying generated histories (0-12 operations on shared operands, results reused) of the real operators at Rat from "
+            "the leaves: breakpoint lists exactly, ordinates/samples exactly on dyadic histories and within 1e-9 otherwise, error "
+            "kinds exactly; and the statement's laws are evaluated on the real code alone with exact rationals.",
     "note": "Trusted: Lean kernel + Mathlib, axioms propext/Classical.choice/Quot.sound; the correspondence harness; np.interp/np.linspace/"
-            "np.pad/np.sum semantics as modelled. [T] only: 'operands observably unchanged' (byte comparison of every live operand around "
-            "every operation and at the end of every history; aliasing is invisible to a functional model) and float rounding. Observation, "
-            "counted not failed: exact +/- share the deeper operand's own depth lists with the result (union_crit_pairs).",
+            "np.pad/np.sum(object array) semantics as modelled. [T] only: 'operands observably unchanged' (byte comparison of every "
+            "attribute of every live landscape and of the argument lists around every operation and at the end of every history; "
+            "aliasing is invisible to a functional model, see also C19) and float rounding. Observation, counted "
+            "(result_shares_operand_depth_lists) and not failed: exact +/- put the deeper operand's own depth lists into the result "
+            "(union_crit_pairs), so a user's in-place edit of the result would change the operand; no operation of the property does that. "
+            "Regression: /repo 9ea345a (zero-width segments) has the theorem old_posToSlope_counterexample and a corpus case.",
     "technique": "Lean 4 theorems over a hand-written model + differential correspondence on operation histories",
 }
